@@ -169,6 +169,48 @@ impl Circ {
         None
     }
 
+    /// The lookup selector columns of the committed constants against their specification, computed
+    /// from the placement of the tables (`lookup_rows`) AND from the gates actually sitting on the rows:
+    /// TransSre = 1 exactly on the table rows [last_lut, first_lut], TransLdc = 1 exactly on the looking
+    /// rows [last_lu, last_lut), InitSre only on first_lut + 1, LastLdc only on last_lu, and the end
+    /// selector of table k only on its last_lut. Returns the first deviation.
+    pub fn lookup_selector_violation(&self) -> Option<String> {
+        let common = &self.data.common;
+        let base = common.selectors_info.num_selectors();
+        let rows = &self.data.prover_only.lookup_rows;
+        if rows.is_empty() { return None; }
+        if common.num_lookup_selectors != 4 + rows.len() { return Some(format!("count:{}", common.num_lookup_selectors)); }
+        for r in 0..self.n {
+            let name = &self.gate_names[self.row_gate[r]];
+            let in_lu = rows.iter().any(|lw| lw.last_lu_gate <= r && r < lw.last_lut_gate);
+            let in_lut = rows.iter().any(|lw| lw.last_lut_gate <= r && r <= lw.first_lut_gate);
+            // placement against the gates on the rows
+            if (name == "LookupGate") != in_lu { return Some(format!("placement:LookupGate:row{r}")); }
+            if (name == "LookupTableGate") != in_lut { return Some(format!("placement:LookupTableGate:row{r}")); }
+            let mut want = vec![in_lut as u64, in_lu as u64,
+                                rows.iter().any(|lw| r == lw.first_lut_gate + 1) as u64,
+                                rows.iter().any(|lw| r == lw.last_lu_gate) as u64];
+            for lw in rows { want.push((r == lw.last_lut_gate) as u64); }
+            for (i, wv) in want.iter().enumerate() {
+                if self.consts[r][base + i].to_canonical_u64() != *wv { return Some(format!("selector{i}:row{r}")); }
+            }
+        }
+        None
+    }
+
+    /// flat arguments and result of the `lksel` correspondence op (Model/Lookup.v lookup_selectors_at)
+    pub fn lksel_line(&self) -> Option<String> {
+        let common = &self.data.common;
+        let rows = &self.data.prover_only.lookup_rows;
+        if rows.is_empty() { return None; }
+        let base = common.selectors_info.num_selectors();
+        let mut a = vec![self.n as u64, rows.len() as u64];
+        for lw in rows { a.extend([lw.last_lu_gate as u64, lw.last_lut_gate as u64, lw.first_lut_gate as u64]); }
+        let mut o = vec![];
+        for r in 0..self.n { for i in 0..common.num_lookup_selectors { o.push(self.consts[r][base + i].to_canonical_u64().to_string()); } }
+        Some(format!("lksel {} = {}", a.iter().map(|x| x.to_string()).collect::<Vec<_>>().join(" "), o.join(" ")))
+    }
+
     /// everything, every row (used once on the honest witness)
     pub fn full_violation(&self, m: &Matrix, pis: &[F]) -> Option<String> {
         let pih = hash_pis(pis);
@@ -273,6 +315,8 @@ pub fn strategy_knobs(s: &str, r: &mut Rng, num_challenges: usize) -> AdversaryK
         "lenient-trim" => { k.lenient_trim = true; }
         "pow-override" => { k.pow_witness_override = Some(if r.coin() { r.below(4) } else { r.next_u64() % P }); k.lenient_trim = true; }
         "sldc-shift" => { k.sldc_shift = true; k.lenient_trim = true; }
+        // the constant that balances the running sums enters at a given row (any row of the table's region)
+        j if j.starts_with("sldc-jump@") => { k.sldc_jump_row = Some(j["sldc-jump@".len()..].parse().unwrap()); k.lenient_trim = true; }
         _ => unreachable!(),
     }
     k
